@@ -307,3 +307,18 @@ pub proof fn lemma_div_wf(e: Expression, a: int, b: int)
 {
     lemma_reads_gpr(lhs_of(e), a, empty_env()); lemma_reads_gpr(rhs_of(e), b, empty_env());
 }
+
+/// `e` reads no general-purpose register 1..31 (by NAME: the executor's state is keyed by scalar name): what an expression that
+/// is evaluated AFTER the delay slot may depend on if it is to be `determined by the branch itself`
+pub open spec fn gpr_free(e: Expression) -> bool {
+    forall|i: int, k: int| 0 <= i < expr_scalars(e).len() && 1 <= k < 32 ==> (#[trigger] expr_scalars(e)[i]).name@ != #[trigger] mips_name(k)
+}
+
+/// the predicate is satisfiable by a branch: a target captured in a scalar of its own (`branching_target`, as
+/// units/C02/proposed_fix_3.diff does) or a constant target is GPR-free
+pub proof fn lemma_gpr_free_examples(s: Scalar, c: Constant)
+    requires s.name@ == "branching_target"@,
+    ensures gpr_free(Expression::Scalar(s)), gpr_free(Expression::Constant(c)),
+{
+    assert forall|k: int| 1 <= k < 32 implies s.name@ != #[trigger] mips_name(k) by { lemma_mips_names_distinct(k, k); }
+}
